@@ -1,13 +1,15 @@
 #!/usr/bin/env python3
-"""Run every stored seeded change against its property's check (quick tier) and record the outcome in meta.json.
-/repo is patched and restored for each seed; do not run other checks concurrently."""
-import json, os, subprocess, sys, glob
+"""Run every stored seeded change against its property's check (quick tier; thorough tier when quick does not
+detect it) and record the outcome in meta.json.  The tree named by SEED_TREE (default /repo) is patched and restored
+for each seed; do not run other checks against that tree concurrently."""
+import json, os, subprocess, sys, glob, time
+TREE = os.environ.get('SEED_TREE', '/repo')
 VERIF = os.path.dirname(os.path.abspath(__file__))
 reg = json.load(open(os.path.join(VERIF, 'MANIFEST.json')))
 claimed = {c['property_id'] for c in reg['checks']}
 only = sys.argv[1:]
 import atexit
-atexit.register(lambda: subprocess.run(['git', '-C', '/repo', 'checkout', '--', '.']))
+atexit.register(lambda: subprocess.run(['git', '-C', TREE, 'checkout', '--', '.']))
 rows = []
 for d in sorted(glob.glob(os.path.join(VERIF, 'seeded', '*'))):
     sid = os.path.basename(d)
@@ -18,34 +20,48 @@ for d in sorted(glob.glob(os.path.join(VERIF, 'seeded', '*'))):
     if pid not in claimed:
         rows.append((sid, 'no check yet'))
         continue
-    subprocess.run(['git', '-C', '/repo', 'checkout', '--', '.'], check=True)
-    r = subprocess.run(['git', '-C', '/repo', 'apply', os.path.join(d, 'patch.diff')])
+    subprocess.run(['git', '-C', TREE, 'checkout', '--', '.'], check=True)
+    r = subprocess.run(['git', '-C', TREE, 'apply', os.path.join(d, 'patch.diff')])
     if r.returncode != 0:
         rows.append((sid, 'PATCH DOES NOT APPLY'))
         continue
     import signal, tempfile
-    outf = tempfile.TemporaryFile(mode='w+')
-    proc = subprocess.Popen([os.path.join(VERIF, 'check'), pid, '--tier', 'quick', '--no-evidence'], stdout=outf, stderr=subprocess.DEVNULL,
-                            start_new_session=True)
-    try:
-        rc = proc.wait(timeout=int(os.environ.get('SEED_TIMEOUT', '900')))
-    except subprocess.TimeoutExpired:
-        rc = 124
-    finally:
+
+    def run_tier(tier, limit):
+        outf = tempfile.TemporaryFile(mode='w+')
+        env = dict(os.environ)
+        if TREE != '/repo':
+            env['PLOTINK_REPO'] = TREE
+        t0 = time.time()
+        proc = subprocess.Popen([os.path.join(VERIF, 'check'), pid, '--tier', tier, '--no-evidence'], stdout=outf, stderr=subprocess.DEVNULL,
+                                start_new_session=True, env=env)
         try:
-            os.killpg(proc.pid, signal.SIGKILL)      # the check's worker pool as well
-        except ProcessLookupError:
-            pass
-        subprocess.run(['git', '-C', '/repo', 'checkout', '--', '.'], check=True)
-    outf.seek(0)
-    out = outf.read()
+            rc = proc.wait(timeout=limit)
+        except subprocess.TimeoutExpired:
+            rc = 124
+        finally:
+            try:
+                os.killpg(proc.pid, signal.SIGKILL)      # the check's worker pool as well
+            except ProcessLookupError:
+                pass
+        outf.seek(0)
+        return rc, outf.read(), round(time.time() - t0)
+    try:
+        tier = 'quick'
+        rc, out, secs = run_tier('quick', int(os.environ.get('SEED_TIMEOUT', '900')))
+        if not (rc == 1 and 'VIOLATION' in out) and os.environ.get('SEED_THOROUGH', '1') == '1':
+            rc2, out2, secs2 = run_tier('thorough', int(os.environ.get('SEED_TIMEOUT_THOROUGH', '3600')))
+            if rc2 == 1 and 'VIOLATION' in out2:
+                tier, rc, out, secs = 'thorough (quick: exit %d)' % rc, rc2, out2, secs2
+    finally:
+        subprocess.run(['git', '-C', TREE, 'checkout', '--', '.'], check=True)
     vio = [l for l in out.splitlines() if l.startswith('  obligation=')]
     first = vio[0].strip()[:400] if vio else ''
     inconc = [l for l in out.splitlines() if l.startswith('INCONCLUSIVE')]
     verdict = 'detected' if rc == 1 and any(l.startswith('VIOLATION') for l in out.splitlines()) else \
         ('inconclusive (exit 0, INCONCLUSIVE line)' if rc == 0 and inconc else 'missed (exit %d)' % rc)
-    meta['detected_by'] = {'check': pid, 'tier': 'quick', 'exit': rc, 'verdict': verdict, 'first_counterexample': first,
-                           'repo_head': subprocess.run(['git', '-C', '/repo', 'log', '--format=%h', '-1'], capture_output=True, text=True).stdout.strip()}
+    meta['detected_by'] = {'check': pid, 'tier': tier, 'seconds': secs, 'exit': rc, 'verdict': verdict, 'first_counterexample': first,
+                           'repo_head': subprocess.run(['git', '-C', TREE, 'log', '--format=%h', '-1'], capture_output=True, text=True).stdout.strip()}
     json.dump(meta, open(os.path.join(d, 'meta.json'), 'w'), indent=1)
     rows.append((sid, verdict + ' | ' + first[:150]))
     print('%-8s %s' % rows[-1], flush=True)
